@@ -415,6 +415,37 @@ func runC08(r *ev.Run) {
 					d.Vec[rng.IntN(len(d.Vec))] = float32(1+rng.IntN(5)) * 1e20 * float32(1-2*rng.IntN(2))
 					r.Count("ops:add-outlier-at-infinite-distance", 1)
 				}
+				if rng.IntN(10) == 0 {
+					// a REFUSED write first: a document the store cannot take (a metadata value of a type it does not
+					// support, a vector of the wrong length, a zero vector under cosine). It was never added: no search may
+					// ever return its id — now, after flushes, after evictions — although its other parts were fine
+					bad := genStoreDoc(rng, p, ids.next(), "h")
+					why := ""
+					switch k := rng.IntN(3); {
+					case k == 0 && p.Meta:
+						if bad.Meta == nil {
+							bad.Meta = map[string]any{}
+						}
+						bad.Meta["tags"] = []string{"a", "b"}
+						why = "unsupported metadata value"
+					case k == 1 && p.VecKind != "" && len(bad.Vec) > 0:
+						bad.Vec = append(cloneF32(bad.Vec), 1)
+						why = "vector one component too long"
+					case k == 2 && p.VecKind != "" && p.Metric == comet.Cosine && len(bad.Vec) > 0:
+						bad.Vec = make([]float32, len(bad.Vec))
+						why = "zero vector under cosine"
+					}
+					if why != "" {
+						err := s.AddWithID(bad.ID, cloneF32(bad.Vec), bad.Text, bad.Meta)
+						log = append(log, fmt.Sprintf("AddWithID(%d) with %s -> %v", bad.ID, why, err))
+						if err == nil {
+							m.ever[bad.ID] = true // taken after all: then it may show up (what it must look like is C06's business)
+							r.Count("ops:unacceptable-add-accepted", 1)
+						} else {
+							r.Count("ops:add-refused", 1)
+						}
+					}
+				}
 				before := s.VerifMemtableCount()
 				var err error
 				if rng.IntN(4) == 0 {
